@@ -8,6 +8,7 @@ import (
 	"fmt"
 	"math/big"
 	"os"
+	"reflect"
 	"strconv"
 	"time"
 
@@ -52,6 +53,7 @@ type Case struct {
 	Env        []string                   `json:"env"`
 	EnvInts    []string                   `json:"env_ints"`
 	Globals    map[string]string          `json:"globals"`
+	SigResults []bool                     `json:"sig_results"`
 }
 
 type NondetItem struct {
@@ -84,7 +86,8 @@ func Load(path string) error {
 		return err
 	}
 	Current = c
-	pos, envPos = 0, 0
+	pos, envPos, sigPos = 0, 0, 0
+	verifiedDids = nil
 	FailedAsserts, PassedAsserts, KFHits, Covers, AssumeFailed = nil, nil, nil, nil, nil
 	return nil
 }
@@ -258,3 +261,42 @@ func Catch(f func()) (panicked bool, kind string) {
 	return false, ""
 }
 func ExactMul(on bool) {}
+
+// ---- signature oracle for native replay: outcomes of the signature checks in call order
+var SigResults []bool
+var sigPos int
+var verifiedDids []string
+
+func NextSigOK(did string) bool {
+	ok := false
+	if Current != nil && sigPos < len(Current.SigResults) {
+		ok = Current.SigResults[sigPos]
+	}
+	sigPos++
+	if ok {
+		verifiedDids = append(verifiedDids, did)
+	}
+	return ok
+}
+
+// Verified / VerifiedBy: natively a verification is recorded only for the DID the replay oracle accepted;
+// the payload is the message the handler was called with.
+func Verified(owner string, msgPtr interface{}) bool { return VerifiedBy(owner) }
+func VerifiedBy(did string) bool {
+	for _, d := range verifiedDids {
+		if d == did {
+			return true
+		}
+	}
+	return false
+}
+
+func DeepEq(a, b interface{}) bool {
+	pa, oka := a.(proto.Message)
+	pb, okb := b.(proto.Message)
+	if oka && okb {
+		return proto.Equal(pa, pb)
+	}
+	return reflect.DeepEqual(a, b)
+}
+func Trace(label string, v interface{}) {}
